@@ -184,6 +184,8 @@ func (api *PublicFilterAPI) NewPendingTransactionFilter() rpc.ID {
 				api.filtersMu.Lock()
 				delete(api.filters, pendingTxSub.ID())
 				api.filtersMu.Unlock()
+				// the subscription is gone for good: errCh is closed, selecting on it again would spin forever
+				return
 			}
 		}
 	}(pendingTxSub.eventCh, pendingTxSub.Err())
